@@ -4,7 +4,7 @@ TRUSTED_BASE = [
     "Lean 4.33.0 kernel (theorems are re-checked by `lake build`; leanchecker in the thorough tier)",
     "axioms: propext, Classical.choice, Quot.sound only (audited with #print axioms on every property theorem); no native_decide, no bv_decide, no sorry/admit/axiom (grep on every run)",
     "Lean compiler + C toolchain + GMP for the executable judges (their definitions are the ones the theorems are about; compilation is trusted)",
-    "translate/ (the syn-based Rust -> Lean translator regenerating DecGen/Code.lean, Code2.lean on every run) and DecModel/RustPrelude.lean (machine words, casts, table access, the exact IEEE binary32/64 model): trusted as a reading of Rust semantics, and CHECKED on every run by recomputing every observation with the translated source (`corr translated-code`); conventions worth naming: a Rust panic (index out of range, unwrap of None, exhausted loop fuel, refused cast) is `.error`, so every `.ok` theorem proves it unreachable; wrapping +,-,*,<<,>> as the crate's profile (overflow-checks off) has them; Rust `/` is Lean's total `/` (x / 0 = 0) — the one variable division of the translated source, in bid___div_128_by_128, is covered by a specification with a non-zero divisor",
+    "translate/ (the syn-based Rust -> Lean translator regenerating DecGen/Code.lean, Code2.lean, Code3.lean on every run) and DecModel/RustPrelude.lean (machine words, casts, table access, the exact IEEE binary32/64 model): trusted as a reading of Rust semantics, and CHECKED on every run by recomputing every observation with the translated source (`corr translated-code`); conventions worth naming: a Rust panic (index out of range, unwrap of None, exhausted loop fuel, refused cast) is `.error`, so every `.ok` theorem proves it unreachable; wrapping +,-,*,<<,>> as the crate's profile (overflow-checks off) has them; Rust `/` is Lean's total `/` (x / 0 = 0) — the one variable division of the translated source, in bid___div_128_by_128, is covered by a specification with a non-zero divisor",
     "the Rust harness (transport and generation only; it never compares), rustc, this machine",
     "bin/check (classification against known_findings.json), bin/gen_decgen (table dump through the cfg hook; regex scrapers for the dispatch of d128.rs, the entry-point inventory and the status-word reads)",
     "DecModel/* as a reading of IEEE 754-2008 and of the property statements",
@@ -169,6 +169,11 @@ for _pid in ("C01", "C15"):
 
 for _pid in ("C01", "C02", "C13"):
     PROPS[_pid]["theorem_modules"] = PROPS[_pid]["theorem_modules"] + ["DecProofs.Properties.SourceLevel5"]
+
+# the trait glue of d128.rs, translated (DecGen/Code3.lean, Api3.lean) and proved: operators = methods, From impls, folds, totality
+for _pid in ("C01", "C06", "C13", "C15"):
+    PROPS[_pid]["theorem_modules"] = PROPS[_pid]["theorem_modules"] + ["DecProofs.Properties.C15GenGlue", "DecProofs.Properties.C15GenGlue2"]
+    PROPS[_pid]["static_modules"] = PROPS[_pid]["static_modules"] + ["DecProofs.Static.Translated3"]
 
 # secondary build configuration of C02 (thorough tier): the tininess-after-rounding cargo feature
 PROPS["C02"]["feature_configs"] = [{"feature": "tiny_after", "judge_tiny_after": True}]
